@@ -39,6 +39,49 @@ def run(ctx):
     r9 = ctx.rule('R9', 'the command comparator orders the commands that '
                   'lock a join by unique key (truth table)', 'DT')
     completion.comparator_table(ctx, r9)
+    r10 = ctx.rule('R10', 'the texts stored as the final state_info / '
+                   'result of a failed or cancelled workflow list tasks in '
+                   'an order the definition determines', 'QSHAPE')
+    r10.floor(2)
+    result_text_order(ctx, r10)
+
+
+DEFINITION_ORDERED = ('name', 'unique_key')
+
+
+def result_text_order(ctx, rule):
+    """The message builders of mistral.engine.workflows read task rows and
+    join their names into wf_ex.state_info / output['result']: the row order
+    is part of the result, so it has to come from a column whose values the
+    definition fixes (the task name), not from creation / update times or
+    ids, which follow the delivery order of the events."""
+    prog = ctx.prog
+    mod = 'mistral.engine.workflows.'
+    fs = [f for q, f in sorted(prog.funcs.items()) if q.startswith(mod) and
+          q[len(mod):].startswith('_build_') and q.endswith('_info_message')]
+    if len(fs) < 2:
+        raise AnalysisError('result message builders not found')
+    for f in fs:
+        qs = [c for c in own_nodes(f.node) if isinstance(c, ast.Call) and
+              U.call_name(c) in ('get_task_executions',
+                                 '_get_task_executions')]
+        if not qs:
+            raise AnalysisError('%s: task query not found' % f.qname)
+        for c in qs:
+            sk = [k.value for k in c.keywords if k.arg == 'sort_keys']
+            ok = len(sk) == 1 and isinstance(sk[0], (ast.List, ast.Tuple)) \
+                and bool(sk[0].elts) and \
+                isinstance(sk[0].elts[0], ast.Constant) and \
+                sk[0].elts[0].value in DEFINITION_ORDERED and \
+                not any(k.arg == 'sort_dirs' and
+                        not isinstance(k.value, (ast.List, ast.Tuple))
+                        for k in c.keywords)
+            rule.check(ok, ctx.construct(f, c, extra='rows ordered by name'),
+                       'the tasks named in the final message are not read '
+                       'in an order fixed by the definition (first sort key '
+                       'one of %s): the stored text depends on which branch '
+                       'was delivered first' % (DEFINITION_ORDERED,),
+                       ctx.loc(f, c))
 
 
 def spec_cache_keys(ctx, rule):
